@@ -16,6 +16,10 @@
   (`slow`), and how many entries `GetFilterTargets` returned and the object-query and action handlers produced
   for each of the two.
 
+  Also observed: the objects that exist after committing the configuration in two stages (`late1`: some hosts and
+  services are committed after the rules and the other objects, in the same process), and API queries issued by an
+  ApiUser whose permission carries a filter (`specApiPerm`).
+
   "the assign expression is true and the ignore expression is not" speaks of the whole rule: which statement is
   written first does not enter (`matchDecl` looks at the two sets of expressions).
 
@@ -52,11 +56,13 @@ structure LoadObs where
   /-- the permuted text (rules, statements inside the rules, objects in another order), as written / wrapped -/
   perm1 : Option Obs := none
   permWrap1 : Option Obs := none
+  /-- the configuration committed in two stages (some hosts/services after everything else, same process) -/
+  late1 : Option Obs := none
 
 inductive Clause
   | fastpathIndependent | parallelIndependent | noMissingObject | noExtraObject | rejectedThoughDefined
   | targetInScope | apiFastpathIndependent | apiNoMissing | apiNoExtra | apiRejectedThoughDefined
-  | orderIndependent | apiMultiplicityIndependent
+  | orderIndependent | apiMultiplicityIndependent | stageIndependent
   deriving DecidableEq, Repr
 
 def Clause.name : Clause → String
@@ -72,6 +78,7 @@ def Clause.name : Clause → String
   | .apiRejectedThoughDefined => "api_rejected_though_defined"
   | .orderIndependent => "order_independent"
   | .apiMultiplicityIndependent => "api_multiplicity_independent"
+  | .stageIndependent => "commit_stage_independent"
 
 /-- the same *set* -/
 def sameSet {α : Type} [BEq α] (a b : List α) : Bool := a.all b.contains && b.all a.contains
@@ -152,6 +159,9 @@ def specLoad (w : World) (rules : Rules) (inv : Inventory) (silentIf : List ObjO
   if !sameObs o.plain1 o.wrap1 then some .fastpathIndependent
   else if !((o.plain16.map (sameObs o.plain1)).getD true && (o.wrap16.map (sameObs o.wrap1)).getD true) then
     some .parallelIndependent
+  -- "on exactly those targets for which the assign expression is true": a target gets its objects whenever it is
+  -- committed — together with the rules or later in the same process; the per-target evaluations are the same
+  else if !((o.late1.map (sameObs o.plain1)).getD true) then some .stageIndependent
   else match expectedObjs w rules inv with
     | none => none
     | some exp =>
@@ -220,5 +230,17 @@ def specApi (w : World) (fvars : Option (List (String × Val))) (ty : TgtType) (
   match specApiSets w fvars ty e inv o with
   | some c => some c
   | none => specApiMult o
+
+/-- The same for an ApiUser whose permission carries a filter that admits the objects `perm`: the query ranges over the
+    admitted objects only — the same set with and without the fast path, exactly the admitted objects the filter is true
+    of (the filter's value on a rejected object is immaterial), the same multiplicities.  `perm t = none`: the permission
+    filter raises on `t`. -/
+def specApiPerm (w : World) (fvars : Option (List (String × Val))) (ty : TgtType) (e : Expr) (inv : Inventory)
+    (perm : Val → Option Bool) (o : ApiObs) : Option Clause :=
+  if (targets inv ty).all fun t => (perm t).isSome then specApi w fvars ty e (restrictInv inv fun t => perm t == some true) o
+  -- the permission filter raises on some object: the property is silent about WHICH objects are returned, not about
+  -- fast-path independence
+  else if !sameObs o.fast o.slow then some .apiFastpathIndependent
+  else none
 
 end Icinga.C16
